@@ -302,7 +302,7 @@ def _run_op(ctx, op, opts):
         if isinstance(h, dict) and 'ref' in h and h['ref'] in ctx.hist:
             ctx.hist[h['ref']].append(op['id'])
     if rec['outcome'] == 'ok' and op.get('store'):
-        ctx.store(op['store'], result)
+        ctx.store(op['store'], ctx.extra.pop('__store__', result))
     rec['hist'] = {oid: list(ctx.hist.get(oid, [])) for oid in rec['uses']}
     try:
         p = canon.plain(result)
